@@ -23,6 +23,7 @@ from ..selftest import Twin
 from ._engine import CL, CL_REL, STATE, branch_for, param
 
 EXPLANATION = __doc__.split("\n\n", 1)[1]
+TECHNIQUE = 'static analysis: typestate of the waiter (guard dominance on both transitions out of pending), protocol checks of wait_for_event, AST evaluation of the default waiter id'
 TRUSTED = ["CPython ast"]
 IC = "workflows.context.internal_context"
 IC_REL = "packages/llama-index-workflows/src/workflows/context/internal_context.py"
